@@ -44,6 +44,14 @@ check("C04", "model_checking",
       "Trusted: the 10-line reference rule in checks/c04.py and the source renderer; illegal Fortran combinations are not generated; two genuine defects are listed in known_findings.json and matched by exact feature values.",
       "bounded-exhaustive enumeration of the configuration product against a reference rule", "DESIGN.md 5/C04")
 
+check("C06", "model_checking",
+      "Full product over module-graph topologies (single, chains of 2 and 3, diamond, fan, double USE) x default access of each module x 10 USE forms "
+      "per edge x consumer scope kind (module level, module procedure, internal procedure, interface body, program, external procedure) x every "
+      "permutation of the file order; the name tables, export tables and resolved reference slots produced by the real ford correlate() are compared "
+      "with an independent implementation of the standard's USE-association rules evaluated on the abstract description.",
+      "Trusted: the reference USE semantics in checks/c06.py; bounds: <= 3 library modules, one entity per kind and flavour. One genuine defect (same entity twice in one ONLY list) is a listed known finding.",
+      "bounded-exhaustive enumeration incl. all file-order schedules, against a reference implementation", "DESIGN.md 5/C06")
+
 ALL = [f"C{i:02d}" for i in range(1, 21)]
 PENDING_REASON = "check not built yet in this round (planned: see DESIGN.md section 5); will be claimed once its exhaustive check exists"
 
